@@ -50,10 +50,7 @@ func conversionCollectionToList(ety cty.Type, conv conversion) conversion {
 		if len(elems) == 0 {
 			// Prefer a concrete type over a dynamic type when returning an
 			// empty list
-			if ety == cty.DynamicPseudoType {
-				return cty.ListValEmpty(val.Type().ElementType()), nil
-			}
-			return cty.ListValEmpty(ety.WithoutOptionalAttributesDeep()), nil
+			return cty.ListValEmpty(dynamicReplace(val.Type().ElementType(), ety.WithoutOptionalAttributesDeep())), nil
 		}
 
 		if !cty.CanListVal(elems) {
@@ -102,10 +99,7 @@ func conversionCollectionToSet(ety cty.Type, conv conversion) conversion {
 		if len(elems) == 0 {
 			// Prefer a concrete type over a dynamic type when returning an
 			// empty set
-			if ety == cty.DynamicPseudoType {
-				return cty.SetValEmpty(val.Type().ElementType()), nil
-			}
-			return cty.SetValEmpty(ety.WithoutOptionalAttributesDeep()), nil
+			return cty.SetValEmpty(dynamicReplace(val.Type().ElementType(), ety.WithoutOptionalAttributesDeep())), nil
 		}
 
 		if !cty.CanSetVal(elems) {
@@ -155,10 +149,7 @@ func conversionCollectionToMap(ety cty.Type, conv conversion) conversion {
 		if len(elems) == 0 {
 			// Prefer a concrete type over a dynamic type when returning an
 			// empty map
-			if ety == cty.DynamicPseudoType {
-				return cty.MapValEmpty(val.Type().ElementType()), nil
-			}
-			return cty.MapValEmpty(ety.WithoutOptionalAttributesDeep()), nil
+			return cty.MapValEmpty(dynamicReplace(val.Type().ElementType(), ety.WithoutOptionalAttributesDeep())), nil
 		}
 
 		if ety.IsCollectionType() || ety.IsObjectType() {
